@@ -514,7 +514,74 @@ def r7(ctx):
     ctx.ob('C14.R7', rc, rc.body, ok and bool(mm), 'remaining length', 'm_bufLen := %s' % sorted(k for _, k in sets))
 
 
+def overflow_threshold_rule(ctx, rid):
+    ctx.rule(rid, 'buffered input is given up only when the transport buffer is nearly exhausted: the condition under which '
+             'FileTransport::read resets m_bufLen (evaluated on the typed AST for buffer sizes 16..256 and every fill level) is '
+             'false whenever at least half of the buffer is free - a pending first byte of a two-byte sequence or the rest of a '
+             'chunk behind a corrupted fragment must survive the next read - and true when the buffer is full (a read of zero '
+             'bytes would look like a timeout for ever)', minimum=1)
+    import tinyeval
+    import rules.C19 as c19
+    fb = ctx.fb
+    fn = fb.fn('ebusd::FileTransport::read')
+    ctx.touch(fn)
+    resets = [nid for nid, d, rhs, op, lhs in fn.assignments() if d == 'this.m_bufLen' and op == '=' and rhs is not None and fn.val(rhs) == 0]
+    if not resets:
+        raise AnalysisBroken('%s: overflow reset of m_bufLen not found in FileTransport::read' % rid)
+    for r in resets:
+        conds = c19._pure_conds(fn, r, lambda v: v.get('this') and v.get('name') in ('m_bufLen', 'm_bufSize'))
+        if not conds:
+            ctx.ob(rid, fn, r, False, 'overflow reset', 'not under a condition on the fill level')
+            continue
+        bad = []
+        try:
+            for size in (16, 32, 64, 256):
+                for ln in range(0, size + 1):
+                    m = tinyeval.Machine(fn, {'m_bufLen': ln, 'm_bufSize': size}, [])
+                    hit = all(bool(m.rv(c)) == t for c, t in conds)
+                    if hit and ln * 2 <= size:
+                        bad.append('%d of %d bytes buffered: discarded' % (ln, size))
+                    if not hit and ln == size:
+                        bad.append('%d of %d bytes buffered: not reset' % (ln, size))
+        except tinyeval.Unknown as e:
+            raise AnalysisBroken('%s: overflow condition not evaluable (%s)' % (rid, e))
+        ctx.ob(rid, fn, r, not bad, 'overflow reset threshold', '; '.join(bad[:3]) or 'between half full and full for every size')
+
+
+def clock_rule(ctx, rid):
+    ctx.rule(rid, 'the deadline arithmetic of recv() runs on milliseconds: clockGetMillis() returns seconds * 1000 + nanoseconds / '
+             '1000000 of the clock reading (evaluated on the typed AST for readings around second boundaries); with another unit '
+             'the wait for the second byte of a split sequence ends early or the call blocks', minimum=1)
+    import tinyeval
+    fb = ctx.fb
+    fn = fb.fn('ebusd::clockGetMillis')
+    ctx.touch(fn)
+    rets = [r for r in fn.all('ReturnStmt') if fn.nodes[r].get('val') is not None]
+    if len(rets) != 1:
+        raise AnalysisBroken('%s: clockGetMillis has %d return statements' % (rid, len(rets)))
+    tv = None
+    for x in fn.walk(rets[0]):
+        v = fn.nodes[x]
+        if v['k'] == 'MemberExpr' and v.get('name') in ('tv_sec', 'tv_nsec'):
+            tv = fn.key(x).rsplit('.', 1)[0]
+    if tv is None:
+        raise AnalysisBroken('%s: timespec fields not used in clockGetMillis' % rid)
+    bad = []
+    try:
+        for sec in (0, 1, 59, 1700000000):
+            for ns in (0, 999, 1000, 999999, 1000000, 1999999, 500000000, 999999999):
+                m = tinyeval.Machine(fn, {tv + '.tv_sec': sec, tv + '.tv_nsec': ns}, [])
+                got = m.rv(fn.nodes[rets[0]]['val'])
+                if got != sec * 1000 + ns // 1000000 and len(bad) < 3:
+                    bad.append('%d s %d ns -> %d' % (sec, ns, got))
+    except tinyeval.Unknown as e:
+        raise AnalysisBroken('%s: clock expression not evaluable (%s)' % (rid, e))
+    ctx.ob(rid, fn, rets[0], not bad, 'unit of clockGetMillis', '; '.join(bad) or 'milliseconds for all 32 readings')
+
+
 def run(ctx):
+    clock_rule(ctx, 'C14.R10')
+    overflow_threshold_rule(ctx, 'C14.R9')
     vals = r1(ctx)
     r2(ctx, vals)
     r3(ctx, vals)
